@@ -109,6 +109,10 @@ def main(v: Verdict) -> None:
     shutil.copytree(packs[0][0], gp / "wrap" / "inner" / packs[0][0].name)
     jobs.append({"src": gp, "timeout": 600, "opts": Opts()})
     meta.append((gp.name, "source-is-ancestor-of-package"))
+    dotted = fresh_dir("c10dot") / "rel-1.0"       # a source directory whose name contains a dot
+    shutil.copytree(packs[0][0], dotted / packs[0][0].name)
+    jobs.append({"src": dotted, "timeout": 600, "opts": Opts()})
+    meta.append((dotted.name, "source-directory-name-with-dot"))
     from pygen import FOREIGN_LIB, FOREIGN_LIB_USE
     # ... and an enum of the package used as a type in another module (it must not be taken for a class of another library)
     fpk = write_pkg({"__init__.py": "", "formod.py": FOREIGN_SRC, "flibuse.py": FOREIGN_LIB_USE,
